@@ -45,6 +45,17 @@ def load_corpus():
     return muts
 
 
+SUPERSEDED = {
+    ("C09", "R3"): ("R11",), ("C09", "R4"): ("R11",), ("C09", "R5"): ("R11",),
+    ("C18", "R4"): ("R8",), ("C18", "R7"): ("R4", "R8"),
+    ("C13", "R3"): ("R8",), ("C13", "R4"): ("R8",), ("C13", "R5"): ("R8",), ("C13", "R6"): ("R8",),
+    ("C14", "R1"): ("R6",), ("C14", "R3"): ("R6",), ("C14", "R4"): ("R6",),
+    ("C15", "R1"): ("R6",), ("C15", "R2"): ("R6",), ("C15", "R3"): ("R6",), ("C15", "R4"): ("R6",), ("C15", "R5"): ("R6",),
+    ("C16", "R2"): ("R5",), ("C16", "R1"): ("R5",),
+    ("C02", "R7"): ("R7",), ("C04", "R8"): ("R8",), ("C06", "R7"): ("R7",),
+}
+
+
 def run_one(mut):
     tmp = Path(tempfile.mkdtemp(prefix="mverif_mut_"))
     try:
@@ -74,6 +85,12 @@ def run_one(mut):
         hit = pr.returncode == 1 and any(want in l and "findings=" not in l for l in out.splitlines())
         if hit and mut.get("key"):
             hit = any(mut["key"] in l for l in out.splitlines() if want in l)
+        if not hit and pr.returncode == 1:
+            # structural rules whose claim a token-domain engine decides report under the engine's rule id
+            for alt in SUPERSEDED.get((mut["prop"], mut["rule"]), ()):
+                w2 = f"[{mut['prop']}-{alt}]"
+                if any(w2 in l and "findings=" not in l for l in out.splitlines()):
+                    hit = True
         if hit:
             return mut, "KILLED", ""
         return mut, "MISSED" if pr.returncode != 2 else "ERROR", out[-1500:]
